@@ -126,6 +126,7 @@ class GWorld(World):
                 self.consts[k] = v.value
         self.in_order = None  # optional permutation for the in-edge view iteration
         self.captured = {}
+        self.build_engines()
 
     # ----------------------------------------------------------- builders
     def node(self, name):
@@ -138,7 +139,8 @@ class GWorld(World):
         o = self._link(name, fq, False if nseg is None else (True if nseg == 1 else nseg))
         self.roles[name] = o
         self.links.append(o)
-        self.env.n1[name] = nseg
+        if name not in self.env.n1 or nseg is not None:
+            self.env.n1[name] = o.attrs["N"] if isinstance(o.attrs["N"], int) else nseg
         return o
 
     def origin(self, name, cls="Origin", otype=None):
@@ -263,8 +265,10 @@ class GWorld(World):
         return World.getattr(self, it, o, attr, node)
 
     def _listify(self, it, x, node):
-        if isinstance(x, GenV):
-            return list(x.items)
+        from .interp import IterV
+
+        if isinstance(x, (GenV, IterV)):
+            return it.iterate(x, node, it.stack[-1] if it.stack else None)
         return x
 
     def call_value(self, it, f, args, kwargs, node):
